@@ -5,7 +5,7 @@ from .. import common
 from .. import fam_pipeline as fp
 from .. import pipeline as pl
 
-THEOREMS = ["C01.inserted_name_fresh", "C01.opcode_index_ok", "C01.step_insertQuant", "C01.step_insertDequant", "C01.step_quantizeTensor", "C01.performer_wf", "C01.modify_wf"]
+THEOREMS = ["C01.inserted_name_fresh", "C01.opcode_index_ok", "C01.step_insertQuant", "C01.step_insertDequant", "C01.step_quantizeTensor", "C01.performer_wf", "C01.modify_wf", "C01.quantize_wf"]
 
 
 def run(ctx):
